@@ -186,6 +186,10 @@ func (t *Trailer) AppendBytes(dst []byte) []byte {
 }
 
 func IsBadTrailer(key []byte) bool {
+	// an empty field name (e.g. an empty element of a 'Trailer: a,,b' list) is never a valid trailer
+	if len(key) == 0 {
+		return true
+	}
 	switch key[0] | 0x20 {
 	case 'a':
 		return utils.CaseInsensitiveCompare(key, bytestr.StrAuthorization)
